@@ -681,6 +681,7 @@ pub fn run(cfg: &Cfg) -> Report {
     });
     self_tests(&mut stats);
     let sorted = serde_json::to_string(&serde_json::from_str::<Value>(r#"{"b":1,"a":2}"#).unwrap_or_default()).unwrap_or_default() == r#"{"a":2,"b":1}"#;
+    crate::sanitize::passes_for("C25", cfg, &mut stats);
     Report {
         prop: "C25",
         level: "exploration",
